@@ -1,6 +1,7 @@
 from registry_common import COMMON_ASSUME
 
 ENTRY = dict(
+        prop_modules=["C19", "TieTypes", "TieTypesB"],
         title="Primitive wire types pack, unpack and size consistently for every value",
         design_ref="DESIGN.md section 6 / C19",
         technique="Lean 4 theorems over all values / all trailing bytes (codec model of data_types.py) + translator table of the struct formats + correspondence with to_bytes/from_bytes/value/size and with the regulator-data consumer on a real EcoMAX device",
@@ -17,7 +18,12 @@ ENTRY = dict(
             "prefix; `bit_position_unpack_commute`, `bit_inst_reports`, `bit_constructed_position` make position and content of a bit field independent. The model is tied to data_types.py by running both on "
             "boundary and random values of every type at random offsets with trailing bytes, non-ASCII strings, arbitrary buffers, all 256x8 bit "
             "fields, and random field sequences decoded by RegulatorDataStructure."),
-        level_note="Trusted: Lean kernel; struct float<->bits conversion, UTF-8 encode/decode and inet_* text forms are CPython's (round-tripped in the harness, not modelled); model <-> data_types.py tie is differential.",
+        level_note="Trusted: Lean kernel; struct float<->bits conversion, UTF-8 encode/decode and inet_* text forms are CPython's (round-tripped in the harness, not modelled). "
+                   "CODE TIE (round 8): tools/py2lean_types.py translates the source text of every class of data_types.py (per concrete class: __init__, construction, from_bytes, "
+                   "to_bytes, pack, unpack, value, size, __eq__, BitArray.next; DATA_TYPES) to Generated/PyCodeTypes.lean on every run; Props/TieTypes.lean proves for the eight integer "
+                   "classes `translated method = intCodec / Inst.step (intInst t)` for ALL values, buffers, offsets and slot states (`*_code_lawful`, `IntClass.sim`, `sim_run`, `data_types_tbl`), Props/TieTypesB.lean `translated BitArray method = bitUnpack / bitValue / bitSize / bitNext / bitPack` (all buffers, raw bytes, indexes); "
+                   "translator + PyPreludeTypes are validated against CPython by harness/pycode_types.py (result and instance slots afterwards). The remaining classes are translated and validated, "
+                   "their model tie is differential.",
         clauses={
             "unpack(pack v) = v, every representable value (ints, float/double bit patterns, IPv4/IPv6 tuples, strings/bytes as byte lists)": "theorem",
             "reported size = number of packed bytes (sizing in bytes, non-ASCII included)": "theorem",
@@ -27,6 +33,7 @@ ENTRY = dict(
             "re-used instance: to_bytes = pack of the value constructed / unpacked last, size = its length, for every operation sequence": "theorem (canonical operations: representable values, buffers that start with a packed form)",
             "struct formats / sizes of the ten struct-backed classes": "table",
             "model codecs = data_types.py classes; float<->bits, UTF-8, inet text forms": "correspondence",
+            "translated source of the eight integer classes = model codec / instance machine, all inputs (TieTypes)": "theorem (code tie; soft mode: CODE-TIE-BROKEN)",
         },
         assumptions=COMMON_ASSUME + [
             "strings are modelled as their UTF-8 byte strings, addresses as byte tuples, floats as IEEE bit patterns; the conversions are CPython's",
